@@ -16,6 +16,7 @@
 import ast
 
 from sa import core
+from sa import formula
 from sa import pycfg
 from sa import tpl
 
@@ -211,7 +212,9 @@ def check(model, rep, tier):
   dom = g.dominators(skip_labels=('exc',))
   for s, ni in zip(stores, ni_store):
     ok = ni is not None and ni_create is not None and ni_create in dom.get(ni, ())
-    same = core.norm(s.value) == core.norm(creates[0].func.value)  # same local
+    same = core.norm(s.value) == core.norm(creates[0].func.value) or (
+        tpl.xnorm(tf, s.value, s) == tpl.xnorm(tf, creates[0].func.value, creates[0])
+        and isinstance(tpl.expand(tf, s.value, s), ast.Call))   # the same object
     rep.check(ok and same, 'CACHE-LOCK', '%s:publish-after-create' % tf.site,
               'the factory must be stored in the cache only after create() has '
               'completed: the lock-free fast path would otherwise hand out a '
@@ -256,12 +259,22 @@ def check(model, rep, tier):
 
   # ---------------------------------------------------------------- CACHE-KEY
   gk = model.func(CACHE, 'CodeObjectCache._get_key')
-  rets = [(core.norm(r.value), _enclosing_withs(gk.node, r))
-          for r in ast.walk(gk.node) if isinstance(r, ast.Return)]
   ep = gk.params()[0]
-  ok = sorted(r[0] for r in rets) == sorted([ep + '.__code__', ep]) and any(
-      r[0] == ep + '.__code__' and ('T', "hasattr(%s, '__code__')" % ep) in r[1]
-      for r in rets)
+
+  def key_cases(fn, test_text, atom):
+    def at(e):
+      return atom if core.norm(e) == test_text else None
+    return [(f, core.norm(v) if v is not None else None)
+            for f, v in formula.return_cases(fn.node, at)]
+
+  def decides(cases, atom, when_true, when_false):
+    A = formula.atom(atom)
+    t = {v for f, v in cases if formula.satisfiable(f & A)}
+    fl = {v for f, v in cases if formula.satisfiable(f & ~A)}
+    return t == {when_true} and fl == {when_false}
+  rets = key_cases(gk, "hasattr(%s, '__code__')" % ep, 'HAS_CODE')
+  ok = decides(rets, 'HAS_CODE', ep + '.__code__', ep)
+  rets = [(str(f), v) for f, v in rets]
   rep.check(ok, 'CACHE-KEY', '%s:code-object' % gk.site,
             'the cache key must be the code object itself (not a name, id or '
             'hash), falling back to the entity', {'returns': rets},
@@ -372,11 +385,11 @@ def check(model, rep, tier):
   rep.check(ok, 'CACHE-ALLOWLIST', '%s:lookup' % ia.site,
             'lookups use the same (entity, options) pair', line=ia.node.lineno)
   ub = model.func(CACHE, 'UnboundInstanceCache._get_key')
-  rets = sorted(core.norm(r.value) for r in ast.walk(ub.node) if isinstance(r, ast.Return))
   e = ub.params()[0]
-  rep.check(rets == sorted([e, e + '.__func__']), 'CACHE-ALLOWLIST',
+  rets = key_cases(ub, 'inspect.ismethod(%s)' % e, 'IS_METHOD')
+  rep.check(decides(rets, 'IS_METHOD', e + '.__func__', e), 'CACHE-ALLOWLIST',
             '%s:function-object' % ub.site, 'key must be the (unbound) function '
-            'object', {'returns': rets}, line=ub.node.lineno)
+            'object', {'returns': [(str(f), v) for f, v in rets]}, line=ub.node.lineno)
 
   # only decisions that depend on (function, options) alone may be remembered
   cc = model.func(API, 'converted_call')
